@@ -132,6 +132,29 @@ class vfloat(metaclass=_FloatMeta):
     """float(x): the identity on exact / symbolic numbers (A1)."""
 
 
+class FloatDomainError(ArithmeticError):
+    """a real (float-typed) operation left its domain: numpy would return nan (with a RuntimeWarning) -- raised by the shims for
+    CONCRETE arguments only, e.g. np.sqrt / np.log of a negative rational that was not made complex-typed by complex(..)"""
+
+
+class CQ(Fraction):
+    """an exact rational that the code made complex-typed (complex(x)): np.sqrt / np.log of a negative CQ are well defined.
+    The tag survives arithmetic with exact numbers."""
+
+    def _w(name):
+        f = getattr(Fraction, name)
+
+        def g(self, *a):
+            r = f(Fraction(self), *[Fraction(x) if isinstance(x, CQ) else x for x in a])
+            return CQ(r) if isinstance(r, Fraction) else r
+        g.__name__ = name
+        return g
+
+    for _n in ("__add__", "__radd__", "__sub__", "__rsub__", "__mul__", "__rmul__", "__truediv__", "__rtruediv__", "__neg__", "__pos__"):
+        locals()[_n] = _w(_n)
+    del _n, _w
+
+
 class _ComplexMeta(type):
     def __instancecheck__(cls, x):
         return isinstance(x, (builtins.complex, builtins.float, Fraction, Sym)) and not isinstance(x, bool)
@@ -139,7 +162,7 @@ class _ComplexMeta(type):
     def __call__(cls, re=0, im=None):
         re = norm(re)
         if im is None:
-            return re
+            return CQ(re) if isinstance(re, _EXACT) and not isinstance(re, bool) else re
         im = norm(im)
         if isinstance(im, _EXACT) and im == 0:
             return re
